@@ -47,6 +47,13 @@ pub enum SideOp {
     BatchRemove(Where, Where),
     /// a few thousand other members registered in one request (right after / around the prover)
     BigRegistration(u16),
+    /// requests the tree must refuse and that must leave it as it was: 0 = batch initialisation with
+    /// more leaves than the tree holds, 1 = a range write running past the end, 2 = a write at
+    /// position 2^20
+    Refused(u8),
+    /// somewhere else in the process a second instance is created from a damaged graph file and
+    /// asked for a proof; that call fails (error or panic, contained) and is nobody else's business
+    DamagedGraphElsewhere(u8),
 }
 
 #[derive(Clone, Copy, Debug, Serialize, Deserialize, PartialEq, Eq)]
@@ -69,7 +76,8 @@ pub struct Case {
     /// bits 0-1: how an externally computed witness vector writes its entries (0 = canonical [0,p),
     /// 1 = balanced: v > (p-1)/2 as v - p, 2 = every non-zero entry as v - p, 3 = odd positions as
     /// v - p); bit 2: the membership tree is a persistent one that is flushed, dropped and re-created
-    /// from its location between the registration history and the proof
+    /// from its location between the registration history and the proof; bit 3: the instance is built
+    /// by new_with_params from another valid key file and proves / verifies with that key
     #[serde(default)]
     pub variant: u8,
 }
@@ -154,6 +162,40 @@ fn apply_side(r: &mut RLN, m: &mut TreeModel, op: &SideOp, index: usize) -> Resu
             r.set_leaves_from(start, Cursor::new(enc)).map_err(|e| e.to_string())?;
             m.set_range(start, &vals);
         }
+        SideOp::Refused(k) => {
+            let one = cr::enc_fr(&fr_to_big(&side_value(3)));
+            let res = match k % 3 {
+                0 => {
+                    // 2^20 + 1 leaves (all equal; the request is refused for its size)
+                    let mut enc = cr::enc_u64((CAP + 1) as u64);
+                    enc.reserve((CAP + 1) * 32);
+                    for _ in 0..=CAP {
+                        enc.extend_from_slice(&one);
+                    }
+                    guarded(|| r.init_tree_with_leaves(Cursor::new(enc)).map_err(|e| e.to_string()))
+                }
+                1 => {
+                    let vals: Vec<BigUint> = (0..5).map(|_| fr_to_big(&side_value(2))).collect();
+                    guarded(|| r.set_leaves_from(CAP - 3, Cursor::new(cr::enc_vec_fr(&vals))).map_err(|e| e.to_string()))
+                }
+                _ => guarded(|| r.set_leaf(CAP, Cursor::new(one.clone())).map_err(|e| e.to_string())),
+            };
+            match res {
+                Ok(Err(_)) => {}
+                Ok(Ok(())) => return Err(format!("a request the tree must refuse (shape {}) was accepted", k % 3)),
+                Err(pn) => return Err(format!("a request the tree must refuse (shape {}) panicked: {}", k % 3, pn.0)),
+            }
+        }
+        SideOp::DamagedGraphElsewhere(kind) => {
+            let g = damaged_graph(*kind);
+            let _ = guarded(|| {
+                let mut other = RLN::new_with_params(DEPTH, rln::circuit::ZKEY_BYTES.to_vec(), g, Cursor::new("{}".to_string())).map_err(|e| e.to_string())?;
+                let w = rln::protocol::random_rln_witness(DEPTH);
+                let enc = rln::protocol::serialize_witness(&w).map_err(|e| e.to_string())?;
+                let mut out = vec![];
+                other.prove(Cursor::new(enc), &mut out).map_err(|e| e.to_string())
+            });
+        }
         SideOp::Range(w, vs) => {
             // range writes stay in the first 4096 positions: the persistent backend's batch insert
             // visits every node left of the range's end inside each right subtree (seconds at 2^20)
@@ -197,6 +239,8 @@ pub fn side_op() -> BoxedStrategy<SideOp> {
         2 => Just(SideOp::QueryPath),
         1 => any::<u16>().prop_map(SideOp::BigRegistration),
         2 => (where_strategy(), where_strategy()).prop_map(|(a, b)| SideOp::BatchRemove(a, b)),
+        1 => (0u8..3).prop_map(SideOp::Refused),
+        1 => (0u8..4).prop_map(SideOp::DamagedGraphElsewhere),
     ]
     .boxed()
 }
@@ -218,15 +262,17 @@ pub fn case_strategy(entries: Vec<Entry>) -> BoxedStrategy<Case> {
         ],
         // external vector representation (bits 0-1) and, for one case in five, a persistent tree that
         // is re-created from its location before proving (bit 2)
-        (0u8..4, prop_oneof![4 => Just(0u8), 1 => Just(4u8)]).prop_map(|(r, p)| r | p),
+        (0u8..4, prop_oneof![4 => Just(0u8), 1 => Just(4u8)], prop_oneof![5 => Just(0u8), 1 => Just(8u8)]).prop_map(|(r, p, k)| r | p | k),
     )
         .prop_map(|(req, pre, post, entry, place, second, variant)| Case { req, pre, post, entry, place, second, variant })
         .boxed()
 }
 
 /// builds the tree (implementation + model) for a case; returns them
-fn persistent_cfg(dir: &std::path::Path) -> String {
-    format!("{{\"tree_config\": {{\"path\": {}, \"temporary\": false}}}}", serde_json::Value::String(dir.to_string_lossy().to_string()))
+/// the tree configuration itself (what new_with_params expects); RLN::new expects it wrapped in a
+/// {"tree_config": ..} document
+fn persistent_tree_cfg(dir: &std::path::Path) -> String {
+    format!("{{\"path\": {}, \"temporary\": false}}", serde_json::Value::String(dir.to_string_lossy().to_string()))
 }
 
 pub fn build_world(c: &Case) -> Result<(RLN, TreeModel), String> {
@@ -241,12 +287,23 @@ pub fn build_world(c: &Case) -> Result<(RLN, TreeModel), String> {
 }
 
 fn build_world_at(c: &Case, reopen: bool, dir: &std::path::Path) -> Result<(RLN, TreeModel), String> {
-    let mut r = if reopen {
-        let _ = std::fs::remove_dir_all(dir);
-        RLN::new(DEPTH, Cursor::new(persistent_cfg(dir))).map_err(|e| format!("cannot create a persistent instance: {e}"))?
-    } else {
-        new_rln(DEPTH)
+    // bit 3: the instance is built by new_with_params from another valid key file (delta halved, L and
+    // H queries doubled): it proves and verifies with its own key
+    let own_key = c.variant & 8 != 0 && c.entry != Entry::ExternalWitness;
+    let cfg = if reopen { persistent_tree_cfg(dir) } else { String::new() };
+    let make = |cfg: &str| -> Result<RLN, String> {
+        if own_key {
+            RLN::new_with_params(DEPTH, rescaled_zkey()?.clone(), graph_bytes().to_vec(), Cursor::new(cfg.to_string())).map_err(|e| e.to_string())
+        } else if cfg.is_empty() {
+            RLN::new(DEPTH, Cursor::new("{}".to_string())).map_err(|e| e.to_string())
+        } else {
+            RLN::new(DEPTH, Cursor::new(format!("{{\"tree_config\": {cfg}}}"))).map_err(|e| e.to_string())
+        }
     };
+    if reopen {
+        let _ = std::fs::remove_dir_all(dir);
+    }
+    let mut r = make(&cfg).map_err(|e| format!("cannot create the instance: {e}"))?;
     let mut m = TreeModel::new(DEPTH, Fr::from(0u64));
     for op in &c.pre {
         apply_side(&mut r, &mut m, op, c.req.index)?;
@@ -272,7 +329,7 @@ fn build_world_at(c: &Case, reopen: bool, dir: &std::path::Path) -> Result<(RLN,
     if reopen {
         r.flush().map_err(|e| format!("flush failed: {e}"))?;
         drop(r);
-        r = RLN::new(DEPTH, Cursor::new(persistent_cfg(dir))).map_err(|e| format!("re-creating the persistent instance from its location failed: {e}"))?;
+        r = make(&cfg).map_err(|e| format!("re-creating the persistent instance from its location failed: {e}"))?;
     }
     Ok((r, m))
 }
@@ -480,7 +537,7 @@ impl Property for C01 {
         "C01"
     }
     fn rule(&self) -> String {
-        "(secret, leaf index, limit, message id, external nullifier, signal, tree history, entry point): field values boundary-weighted, index from {0, 1, 2^19-1, 2^19, 2^20-2, 2^20-1, right half, uniform}, limit from {1, 2, 100, 65535, 65536, uniform}, message id from {0, limit-1, uniform}, signals of length 0..12000 incl. Keccak block edges; 0..3 tree operations (set/delete/range write/removal-only batch / registration of 2100..5000 other members in one request on the sibling, the other half, neighbours, first/last, uniform positions, and reads of the prover's own membership path) before and after the rate commitment is placed (set_leaf, set_leaves_from or set_next_leaf); four entry points (tree state, caller-supplied witness, raw prove with independently assembled witness and values, externally computed witness vector from the reference generator); 4 in 9 cases prove a second, related request on the same instance right afterwards (another signal / message id / external nullifier / the same request again). An externally computed vector writes its entries as canonical, balanced (v > (p-1)/2 as v - p), negative (every non-zero entry as v - p) or alternating representatives; one case in five registers on a persistent tree that is flushed, dropped and re-created from its location before the proof is requested. A quarter of the cases have every verification call made by a second long-lived thread of the caller (taking turns with the thread that proves and changes the tree). \
+        "(secret, leaf index, limit, message id, external nullifier, signal, tree history, entry point): field values boundary-weighted, index from {0, 1, 2^19-1, 2^19, 2^20-2, 2^20-1, right half, uniform}, limit from {1, 2, 100, 65535, 65536, uniform}, message id from {0, limit-1, uniform}, signals of length 0..12000 incl. Keccak block edges; 0..3 tree operations (set/delete/range write/removal-only batch / registration of 2100..5000 other members in one request on the sibling, the other half, neighbours, first/last, uniform positions, and reads of the prover's own membership path) before and after the rate commitment is placed (set_leaf, set_leaves_from or set_next_leaf); four entry points (tree state, caller-supplied witness, raw prove with independently assembled witness and values, externally computed witness vector from the reference generator); 4 in 9 cases prove a second, related request on the same instance right afterwards (another signal / message id / external nullifier / the same request again). An externally computed vector writes its entries as canonical, balanced (v > (p-1)/2 as v - p), negative (every non-zero entry as v - p) or alternating representatives; one case in five registers on a persistent tree that is flushed, dropped and re-created from its location before the proof is requested. One case in six runs on an instance built by new_with_params from another valid key file (delta halved, L and H queries doubled), proving and verifying with its own key; histories contain requests the tree must refuse (over-capacity initialisation with 2^20+1 leaves, a range write past the end, a write at position 2^20) and a proof attempt on a second instance built from a damaged graph file (contained). A quarter of the cases have every verification call made by a second long-lived thread of the caller (taking turns with the thread that proves and changes the tree). \
          non-trivial = index >= 2^19, mid in {0, limit-1}, limit in {1, 2^16}, a boundary field value, or signal length 0 or >= 136; distinct by case content".into()
     }
     fn assumptions(&self) -> Vec<String> {
@@ -513,6 +570,9 @@ impl Property for C01 {
         o.label(format!("place/{:?}", c.place));
         if c.variant & 4 != 0 {
             o.label("persistent-tree-re-created-before-proving");
+        }
+        if c.variant & 8 != 0 && c.entry != Entry::ExternalWitness {
+            o.label("instance-with-its-own-key");
         }
         if c.entry == Entry::ExternalWitness {
             o.label(format!("external-vector/{}", ["canonical", "balanced", "negative", "alternating"][(c.variant & 3) as usize]));
